@@ -92,6 +92,7 @@ Definition is_rtp_kind (k : kind) : bool := match k with KAudio | KVideo => true
 Definition orelse {A} (a b : option A) : option A := match a with Some _ => a | None => b end.
 
 (* ------------------------------------------------------------------ set_remote_description *)
+(* the role comes from the first media-level a=setup, else from a session-level one (fix aa4c5b4) *)
 Definition first_setup (secs : list osec) : option string :=
   fold_right (fun s acc => orelse (o_setup s) acc) None secs.
 
@@ -100,7 +101,7 @@ Definition new_role (c : config) (cur : option bool) (o : offer) : option bool :
   | Some r => Some r
   | None =>
       match c_mode c with
-      | MWebRtc => option_map setup_to_role (first_setup (f_secs o))
+      | MWebRtc => option_map setup_to_role (orelse (first_setup (f_secs o)) (f_sess_setup o))
       | _ => Some role_non_webrtc
       end
   end.
